@@ -136,6 +136,16 @@ fn run_program(line: &str) -> String {
                     if let Some(m) = s.metadata() { let _ = META.set(m); }
                     w.lock().unwrap().handles.insert(n(2), s);
                 }
+                "nsg" => {
+                    // a new span whose explicit parent is given as a reference to an entered guard of this thread
+                    let s = GUARDS.with(|m| m.borrow().get(&n(4)).map(|g| if n(3) <= 3 { tracing::info_span!(parent: g, "s", f = tracing::field::Empty) } else { tracing::debug_span!(parent: g, "s", f = tracing::field::Empty) }));
+                    let s = s.unwrap_or_else(|| if n(3) <= 3 { tracing::info_span!("s", f = tracing::field::Empty) } else { tracing::debug_span!("s", f = tracing::field::Empty) });
+                    w.lock().unwrap().handles.insert(n(2), s);
+                }
+                "ffg" => {
+                    let g = w.lock().unwrap();
+                    if let Some(s) = g.handles.get(&n(2)) { GUARDS.with(|m| if let Some(gd) = m.borrow().get(&n(3)) { s.follows_from(gd); }); }
+                }
                 "cl" => {
                     let c = w.lock().unwrap().handles.get(&n(1)).cloned();
                     if let Some(c) = c { w.lock().unwrap().handles.insert(n(2), c); }
